@@ -84,10 +84,11 @@ func newNode() *Node {
 }
 
 func (n *Node) update(topic format.Topic, f func([]byte) []byte) {
-	topic, token := topic.Next()
-	if token == "" {
+	if topic == nil {
 		n.Data = f(n.Data)
 	} else {
+		var token string
+		topic, token = topic.Next()
 		if n.Children == nil {
 			// nodes rebuilt by Load have no map yet
 			n.Children = make(map[string]*Node)
@@ -114,8 +115,7 @@ func (this *Node) iterate(iterator NodeIterator) {
 	}
 }
 func (this *Node) walk(topic format.Topic, iterator NodeIterator) {
-	topic, token := topic.Next()
-	if token == "" {
+	if topic == nil {
 		iterator(this.Data)
 		// "a/#" also matches its parent level "a"
 		if n, ok := this.Children[MWC]; ok {
@@ -123,6 +123,7 @@ func (this *Node) walk(topic format.Topic, iterator NodeIterator) {
 		}
 		return
 	}
+	topic, token := topic.Next()
 
 	for k, n := range this.Children {
 		// If the key is "#", then these subscribers are added to the result set
